@@ -22,9 +22,13 @@ cd /verif
 git -C /repo status --porcelain --untracked-files=no | grep -q . && { echo "/repo is dirty, refusing"; exit 2; }
 git -C /repo apply $OUT/patch.diff || { echo "patch does not apply to /repo"; exit 2; }
 START=$(date +%s)
+cp evidence/$P.json /tmp/evidence_$P.clean.json 2>/dev/null
 ./check $P --tier $TIER > $OUT/check_$TIER.log 2>&1; RC=$?
 END=$(date +%s)
 git -C /repo checkout -- .
+# the evidence written by this run describes the seeded tree: keep it with the seed, restore the clean-tree evidence
+cp evidence/$P.json $OUT/evidence_$TIER.json 2>/dev/null
+[ -f /tmp/evidence_$P.clean.json ] && mv /tmp/evidence_$P.clean.json evidence/$P.json
 VIOL=$(grep -c "^VIOLATION" $OUT/check_$TIER.log)
 echo "check $P --tier $TIER: exit $RC, $VIOL VIOLATION line(s), $((END-START)) s"
 grep "^VIOLATION" $OUT/check_$TIER.log | head -5
